@@ -237,7 +237,7 @@ PROPS['C12'] = {
 }
 
 PROPS['C05'] = {
-    'modules': ['c05', ('c03', ['R3.8', 'R3.7b', 'R3.7c', 'R3.11', 'R3.12']), ('c11', ['R11.4', 'R11.1']), ('c04', ['K5'])],
+    'modules': ['c05', ('c03', ['R3.8', 'R3.7b', 'R3.7c', 'R3.11', 'R3.12']), ('c11', ['R11.4', 'R11.1']), ('c04', ['K5']), ('c10', ['R10.4']), ('c20', ['W4b', 'W2'])],
     'level': 'other',
     'quick_configs': ['default'],
     'thorough_configs': ALL,
@@ -266,7 +266,7 @@ PROPS['C05'] = {
 }
 
 PROPS['C08'] = {
-    'modules': ['c08', 'fattype', ('c10', ['R10.2', 'R10.8']), ('c17', ['T3b', 'T3']), ('c11', ['R11.4']), ('bits', ['X8', 'X9', 'K6']), ('c04', ['K3'])],
+    'modules': ['c08', 'fattype', ('c10', ['R10.2', 'R10.8', 'R10.4']), ('c17', ['T3b', 'T3']), ('c11', ['R11.4']), ('bits', ['X8', 'X9', 'K6']), ('c04', ['K3']), ('c02', ['B5', 'B7'])],
     'level': 'other',
     'quick_configs': ['default'],
     'thorough_configs': ALL,
@@ -326,7 +326,7 @@ PROPS['C15'] = {
 }
 
 PROPS['C01'] = {
-    'modules': ['c15', 'c01', ('c03', ['R3.7', 'R3.7b', 'R3.7c']), ('c02', ['B5'])],
+    'modules': ['c15', 'c01', ('c03', ['R3.7', 'R3.7b', 'R3.7c']), ('c02', ['B5']), ('c11', ['R11.1'])],
     'level': 'other',
     'quick_configs': ['default'],
     'thorough_configs': ALL,
@@ -443,7 +443,7 @@ PROPS['C16'] = {
 }
 
 PROPS['C10'] = {
-    'modules': ['c10', ('c11', ['R11.4']), ('bits', ['X8', 'X9']), ('c08', ['X7'])],
+    'modules': ['c10', ('c11', ['R11.4']), ('bits', ['X8', 'X9']), ('c08', ['X7']), ('c20', ['W2'])],
     'level': 'other',
     'quick_configs': ['default'],
     'thorough_configs': ALL,
@@ -476,7 +476,7 @@ PROPS['C10'] = {
 }
 
 PROPS['C03'] = {
-    'modules': ['c03', ('c05', ['A5.8']), ('c10', ['R10.4', 'R10.2']), ('c15', ['N7', 'N9', 'N1']), ('c04', ['K5']), ('c11', ['R11.4']), ('retry', ['R9.9']), ('c02', ['B5', 'B7']), ('c01', ['R1.2', 'R1.10'])],
+    'modules': ['c03', ('c05', ['A5.8']), ('c10', ['R10.4', 'R10.2']), ('c15', ['N7', 'N9', 'N1']), ('c04', ['K5']), ('c11', ['R11.4', 'R11.1']), ('retry', ['R9.9']), ('c02', ['B5', 'B7']), ('c01', ['R1.2', 'R1.10'])],
     'level': 'other',
     'quick_configs': ['default'],
     'thorough_configs': ALL,
@@ -502,7 +502,7 @@ PROPS['C03'] = {
 }
 
 PROPS['C04'] = {
-    'modules': ['c04', 'fattype', ('c14', ['P2', 'P3']), ('siblings', ['SB1', 'SB2']), ('c11', ['R11.4', 'R11.1']), ('bits', ['K6']), ('c08', ['X2']), ('c03', ['R3.13'])],
+    'modules': ['c04', 'fattype', ('c14', ['P2', 'P3']), ('siblings', ['SB1', 'SB2']), ('c11', ['R11.4', 'R11.1', 'R11.6']), ('bits', ['K6']), ('c08', ['X2']), ('c03', ['R3.13']), ('c02', ['B5', 'B7'])],
     'level': 'other',
     'quick_configs': ['default'],
     'thorough_configs': ALL,
